@@ -79,10 +79,13 @@ type Module struct {
 	// Ext: further modules on disk (own go.mod) which this module requires and reaches through `replace => <dir>`
 	// (multimod.go).  Their files are part of the snapshotted tree (paths relative to THIS module's root).
 	Ext []ExtMod `json:"ext,omitempty"`
-	// Work: the modules of Ext are reached through a go.work workspace (use directives; the main go.mod neither requires
-	// nor replaces them) instead of require + replace.  The run's child then gets an environment without GOFLAGS (the go
-	// command refuses -mod=mod in workspace mode).  multimod.go.
-	Work bool `json:"work,omitempty"`
+	// Work: the modules (this one and every Ext) are members of a go.work workspace (workspace.go): "root" = go.work in
+	// this module's root (use . ./api ../mkit), "parent" = go.work in the directory above it (use ./m ./m/api ./mkit),
+	// "auto" (JSON also: true) = above it iff some member is a sibling "../x", and no require lines (C05's two-module runs).
+	// WorkOnly: the go.mod of this module has NO require / replace lines for the other members (the workspace alone
+	// resolves the imports).  The child process then runs without GOFLAGS=-mod=mod (rejected in workspace mode).
+	Work     WorkMode `json:"work,omitempty"`
+	WorkOnly bool     `json:"work_only,omitempty"`
 }
 
 func (m *Module) PkgPath(dir string) string {
@@ -255,7 +258,8 @@ type Job struct {
 	// Gate: if set, the child writes <out>.ready after NewContext and waits for this file to appear before it calls
 	// Execute (so that a tracer can be attached to exactly the Execute phase).
 	Gate string `json:"gate,omitempty"`
-	// Work: the module lies in a go.work workspace: run the child without GOFLAGS
+	// Work: the module lies in a go.work workspace; the child is started without GOFLAGS (-mod=mod is rejected in
+	// workspace mode) and without GOWORK (the go command finds go.work by walking up from Dir).
 	Work bool `json:"work,omitempty"`
 }
 
@@ -294,6 +298,9 @@ type World struct {
 	ModPath string `json:"modpath"`
 	GoVer   string `json:"gover"`
 	Pkgs    []WPkg `json:"pkgs"`
+	// RunRoot: root directory of the module of the run relative to ModRoot, when that is not the directory the run was
+	// started in (workspace.go: RunWorld); "" otherwise.  The model writes gengo.sum there.
+	RunRoot string `json:"runroot,omitempty"`
 }
 
 type ChildResult struct {
@@ -821,11 +828,7 @@ func RunChild(job Job, scratch string, wrapper ...string) RunResult {
 	cmd.Stderr, cmd.Stdout = &stderr, &stdout
 	cmd.Dir = scratch
 	if job.Work {
-		for _, kv := range os.Environ() {
-			if !strings.HasPrefix(kv, "GOFLAGS=") && !strings.HasPrefix(kv, "GOWORK=") {
-				cmd.Env = append(cmd.Env, kv)
-			}
-		}
+		cmd.Env = workspaceEnv(os.Environ())
 	}
 	err := cmd.Run()
 	var rr RunResult
@@ -968,6 +971,9 @@ func CoqWorld(w *World) string {
 		if p.Direct {
 			direct = append(direct, core.Hex(p.Path))
 		}
+	}
+	if w.RunRoot != "" {
+		return fmt.Sprintf("(mk_world_at %s %s %s)", core.Hex(w.RunRoot), core.CoqList(pkgs), core.CoqList(direct))
 	}
 	return fmt.Sprintf("(mk_world %s %s)", core.CoqList(pkgs), core.CoqList(direct))
 }
